@@ -68,6 +68,9 @@ class TapeRecorder:
     def __str__(self):
         return self.expr
 
+    def __bool__(self):
+        raise TypeError('The truth value of a multivector is not known while an expression is being recorded.')
+
     def binary_operator(self, other, operator: str):
         if not isinstance(other, self.__class__):
             # Assume scalar
